@@ -196,6 +196,12 @@ def step (sess : Session) (line : String) : Session × String :=
      | some text => (sess, encLsp (lspAnalyze sess.fuel text))
      | none => (sess, "bad-utf8"))
   | ["lspu", _] => (sess, encLsp (lspAnalyze sess.fuel []))
+  -- the document is opened AGAIN (with or without a close in between): answered for the text the new open carries
+  | ["lspo", _, h] =>
+    (match unhex h with
+     | some text => (sess, encLsp (lspAnalyze sess.fuel text))
+     | none => (sess, "bad-utf8"))
+  | ["lspo", _] => (sess, encLsp (lspAnalyze sess.fuel []))
   | "lspq" :: _ :: rest =>
     let a := lspAnalyze (F := Float) sess.fuel (argText rest)
     (sess, match semanticTokens a with
